@@ -18,7 +18,7 @@ def check(prop, tier):
         cfgs = [({"MaxOps": "4", "Offs": "{0, 32}", "Vals": '{"v"}'}, ()),
                 ({"MaxOps": "4", "Offs": "{0, 1}", "Types": '{"t"}', "MaxCalls": "2"}, ()),
                 ({"MaxOps": "3", "Accts": '{"a", "b"}'}, ()),
-                ({"MaxOps": "10", "Accts": '{"a", "b"}', "Slots": "{0, 1, 2}", "Names": '{"x", "y", "z"}', "MaxCalls": "3"},
+                ({"MaxOps": "10", "Accts": '{"a", "b"}', "Slots": "{0, 1, 2}", "Names": '{"x", "y", "z"}', "NestIdx": '{"x", "y", ""}', "MaxCalls": "3"},
                  ("-simulate", "num=1200", "-depth", "11", "-seed", str(seed())))]   # ~180 successors per step are all emitted: ~2M histories
     comp.negative(v, "KeyTree", "KeyTree_base.cfg", "DevFirstWins", "LookupAgree", invariants=INV, overrides={"MaxOps": "3"})
     for ov, extra in cfgs:
